@@ -48,7 +48,8 @@ static void icp_case(vh::Ctx & c, const char * tname, const char * cat, double t
   Eigen::Matrix<double, 3, 3> H = icp.getTransformation().template cast<double>();
   double err = (H - T).norm();
   auto params = [&]() {
-      return vh::Params{{"tx", tx}, {"ty", ty}, {"theta", th}, {"homogeneous", (double)Tr<P>::HOMOGENEOUS},
+      return vh::Params{{"tx", tx}, {"ty", ty}, {"theta", th}, {"atx", std::fabs(tx)}, {"aty", std::fabs(ty)},
+        {"atheta", std::fabs(th)}, {"err", err}, {"homogeneous", (double)Tr<P>::HOMOGENEOUS},
         {"is_float", (double)(sizeof(S) == 4)}};
     };
   auto wit = [&]() {
@@ -96,6 +97,9 @@ static void icp_dispatch(vh::Ctx & c, vh::Rng & r, uint64_t idx)
     // fixed witnesses inside the known non-convergence corner (+,+,+)
     static const double W[3][3] = {{0.2, 0.2, 0.05}, {0.19, 0.195, 0.048}, {0.185, 0.19, 0.0475}};
     cat = "known_corner_witness"; tx = W[idx - 28][0]; ty = W[idx - 28][1]; th = W[idx - 28][2];
+  } else if (idx == 31) {
+    // fixed witness of the second recorded finding: success reported, pose error 0.035 (homogeneous points)
+    cat = "known_inaccurate_witness"; tx = -0.19401195609813404; ty = -0.19935039974259092; th = -0.04948168115956874;
   } else if (getenv("C06_SURVEY")) {
     // calibration aid (not used by the registered tiers): boundary / corner heavy sampling of the whole envelope
     cat = "survey";
@@ -103,6 +107,9 @@ static void icp_dispatch(vh::Ctx & c, vh::Rng & r, uint64_t idx)
     tx = r.coin(0.65) ? edge(TL) : r.uni(-TL, TL);
     ty = r.coin(0.65) ? edge(TL) : r.uni(-TL, TL);
     th = r.coin(0.65) ? edge(RL) : r.uni(-RL, RL);
+    if (getenv("C06_SURVEY_CORNERS")) {
+      tx = r.sign() * TL * (1 - 0.15 * r.uni()); ty = r.sign() * TL * (1 - 0.15 * r.uni()); th = r.sign() * RL * (1 - 0.15 * r.uni());
+    }
   } else {
     int m = (int)r.range(0, 9);
     if (m < 4) {
@@ -118,11 +125,14 @@ static void icp_dispatch(vh::Ctx & c, vh::Rng & r, uint64_t idx)
       cat = "around_known_corner"; tx = r.uni(0.12, TL); ty = r.uni(0.12, TL); th = r.uni(0.03, RL);
     }
   }
+  if (const char * pt = getenv("C06_POINT")) {     // calibration aid: replay one displacement
+    sscanf(pt, "%lf,%lf,%lf", &tx, &ty, &th); cat = "survey";
+  }
   c.cat(std::string("icp_") + cat);
   bool nontrivial = std::hypot(tx, ty) > 0.05 || std::fabs(th) > 0.01;
   // representation: both for the fixed cases, alternating otherwise; float only in the thorough tier
-  int rep = idx <= 30 ? 2 : (int)r.range(0, 1);
-  bool use_float = c.tier == "thorough" && idx > 30 && r.coin(0.25);
+  int rep = idx <= 30 ? 2 : (idx == 31 ? 1 : (int)r.range(0, 1));
+  bool use_float = c.tier == "thorough" && idx > 31 && r.coin(0.25);
   if (getenv("C06_SURVEY")) {use_float = std::string(getenv("C06_SURVEY")) == "float";}
   c.distinct(vh::hash_doubles({1.0, tx, ty, th, (double)rep, (double)use_float}), nontrivial);
   if (use_float) {
@@ -198,7 +208,7 @@ static void one_case(vh::Ctx & c, uint64_t idx)
 {
   vh::Rng r(c.seed, idx);
   uint64_t z = idx * 0x9E3779B97F4A7C15ULL + 12345;
-  bool is_icp = idx <= 30 || (vh::splitmix64(z) % 8 == 0) || getenv("C06_SURVEY");
+  bool is_icp = idx <= 31 || (vh::splitmix64(z) % 8 == 0) || getenv("C06_SURVEY");
   if (is_icp) {icp_dispatch(c, r, idx); return;}
   switch (r.range(0, 7)) {
     case 0: ransac_case<Eigen::Vector2d>(c, r, "Cartesian2d"); break;
